@@ -197,6 +197,35 @@ def make(h):
 def fg(x):
     return hg(x) + G + {d}
 ''',
+    # edited IN PLACE: the reload keeps file name, first line and function name, only the body changes.
+    # No probe: the served function must also behave like the plain function it was converted from.
+    'inplace': '''
+G = {g}
+def scale(x):
+    if x > 0:
+        x = x * {c} + {d}
+    return x + G
+def make(k):
+    def shift(x):
+        if x > k:
+            return x - k + {c}
+        return G + {d}
+    return shift
+''',
+    # wrappers returned by ONE functools.wraps decorator (one code object): around a function of a
+    # DoNotConvert module (`copy.copy`; the wrapper's __module__ is 'copy') and around user code
+    'wrapped': '''
+G = {g}
+def passthrough(fn):
+    @functools.wraps(fn)
+    def wrapper(*args, **kwargs):
+        return fn(*args, **kwargs)
+    return wrapper
+def user(x):
+    if x > 0:
+        x = x + {c}
+    return x + probe()
+''',
     # not convertible (for/else): transform_ast raises, nothing is cached, every request retries
     'broken': '''
 G = {g}
@@ -259,11 +288,12 @@ def probe_fn():
 
 class Fn(object):
     """One function object of the pool plus what the oracle needs."""
-    __slots__ = ('fn', 'args', 'bound', 'fake', 'label', 'refs', 'setter')
+    __slots__ = ('fn', 'args', 'bound', 'fake', 'label', 'refs', 'setter', 'pure')
 
-    def __init__(self, fn, args, label, bound=None, fake=None, setter=None):
+    def __init__(self, fn, args, label, bound=None, fake=None, setter=None, pure=False):
         self.fn, self.args, self.label, self.bound, self.fake = fn, args, label, bound, fake
         self.setter = setter
+        self.pure = pure         # no probe / directive: the conversion must also behave like the plain function
         self.refs = {}           # opt tuple -> reference-converted function
 
 
@@ -276,6 +306,7 @@ class Group(object):
         self.gen = 0
         self.modnames = []
         self.twin = False
+        self.inplace = False     # reloads rewrite the SAME file (same definition site, new body)
 
     def source(self):
         return TEMPLATES[self.kind].format(**self.params)
@@ -286,12 +317,26 @@ class Group(object):
         w = self.world
         src = self.source()
         self.gen += 1
-        path = os.path.join(w.dir, '%s_%s.py' % (self.name, hashlib.sha1(src.encode()).hexdigest()[:8]))
-        if not os.path.exists(path):        # never rewrite a file another thread may be reading
-            tmp = path + '.%d.tmp' % threading.get_ident()
-            with open(tmp, 'w') as f:
-                f.write(src)
-            os.replace(tmp, path)
+        if self.inplace:
+            # the user edits the file: same path, same lines, new body (only groups private to one thread)
+            path = os.path.join(w.dir, '%s_inplace.py' % self.name)
+            old = None
+            if os.path.exists(path):
+                with open(path) as f:
+                    old = f.read()
+            if old != src:
+                tmp = path + '.%d.tmp' % threading.get_ident()
+                with open(tmp, 'w') as f:
+                    f.write(src)
+                os.replace(tmp, path)
+                linecache.cache.pop(path, None)
+        else:
+            path = os.path.join(w.dir, '%s_%s.py' % (self.name, hashlib.sha1(src.encode()).hexdigest()[:8]))
+            if not os.path.exists(path):        # never rewrite a file another thread may be reading
+                tmp = path + '.%d.tmp' % threading.get_ident()
+                with open(tmp, 'w') as f:
+                    f.write(src)
+                os.replace(tmp, path)
         linecache.checkcache(path)
         # a real module object (inspect.getmodule must find it: lambdas are located through it)
         modname = 'c10pool_%s_%d_%d' % (self.name, self.gen, id(self))
@@ -301,6 +346,8 @@ class Group(object):
         self.modnames.append(modname)
         ns = mod.__dict__
         ns['probe'] = probe_fn()
+        import functools as _functools
+        ns['functools'] = _functools
         exec(compile(src, path, 'exec'), ns)
         out = []
         kind = self.kind
@@ -343,6 +390,14 @@ class Group(object):
             out += [Fn(ns['mk'](2), [(3,)], 'lambda k=2'), Fn(ns['mk'](5), [(3,)], 'lambda k=5')]
         elif kind == 'siblings':
             self.maker = ns['make']
+        elif kind == 'inplace':
+            out += [Fn(ns['scale'], [(3,), (0,)], 'edited in place: scale', pure=True),
+                    Fn(ns['make'](2), [(5,), (1,)], 'edited in place: closure shift', pure=True)]
+        elif kind == 'wrapped':
+            import copy as _copy
+            out += [Fn(ns['passthrough'](ns['user']), [(3,), (0,)], 'functools.wraps wrapper around user code'),
+                    Fn(ns['passthrough'](_copy.copy), [(3,), (0,)], 'functools.wraps wrapper around copy.copy (__module__ == copy)'),
+                    Fn(ns['passthrough'](ns['user']), [(4,), (0,)], 'second functools.wraps wrapper around user code')]
         elif kind == 'callee':
             raw = malt.experimental.do_not_convert(ns['other'])
             ns['hg'] = raw
@@ -945,7 +1000,7 @@ class Installed(object):
         from malt.core import ag_ctx
         self.conversion = conversion
         self.old_allow = conversion._ALLOWLIST_CACHE
-        conversion._ALLOWLIST_CACHE = cache_mod.UnboundInstanceCache()
+        conversion._ALLOWLIST_CACHE = type(conversion._ALLOWLIST_CACHE)()     # a fresh one of the class under test
         self.orig_cache_allowlisted = orig_ca = conversion.cache_allowlisted
 
         def cache_allowlisted(entity, options):
@@ -981,12 +1036,30 @@ class Installed(object):
             return orig_ca(entity, options)
 
         conversion.cache_allowlisted = cache_allowlisted
+        self.orig_in_allow = orig_in = conversion.is_in_allowlist_cache
+
+        def is_in_allowlist_cache(entity, options):
+            r = orig_in(entity, options)
+            try:
+                if r and not rec.allowed(entity, _safe_opt(options)):
+                    f = getattr(entity, '__func__', entity)
+                    with rec.mutex:
+                        rec.allow_bad.append({'what': 'allowlist cache answered "run as-is" for a callable that has no entry of its '
+                                                      'own: the verdict recorded for ANOTHER callable was served',
+                                              'function': getattr(f, '__qualname__', repr(f)), 'thread': rec.t(),
+                                              'opt': list(_safe_opt(options)[:3]) + [list(_safe_opt(options)[3])]})
+            except Exception:      # noqa
+                rec.unexpected.append('recorder failure: ' + traceback.format_exc()[-300:])
+            return r
+
+        conversion.is_in_allowlist_cache = is_in_allowlist_cache
         return tr
 
     def __exit__(self, *a):
         self.transpiler._PythonFnFactory.instantiate = self.orig_inst
         self.api._TRANSPILER = self.old_tr
         self.conversion.cache_allowlisted = self.orig_cache_allowlisted
+        self.conversion.is_in_allowlist_cache = self.orig_in_allow
         self.conversion._ALLOWLIST_CACHE = self.old_allow
         with self.rec.mutex:
             self.rec.emit(self.rec.scan(full=True))
@@ -1112,6 +1185,14 @@ def do_request(world, entry, opt, route, verdicts, where):
                 if got != exp:
                     verdicts.append(dict(info, what='behaviour differs from cache-less reference conversion',
                                          args=[repr(x)[:60] for x in a], got=repr(got), expected=repr(exp)))
+                elif entry.pure:
+                    # a reference made in this process shares every process-wide memo with the request; a function
+                    # without probe must in addition behave like the definition it was converted from
+                    plain = behave(fn, call_args(entry, a), entry.fake)
+                    if got != plain:
+                        verdicts.append(dict(info, what='served conversion does not behave like the CURRENT definition of the '
+                                                        'function (stale code)', args=[repr(x)[:60] for x in a],
+                                             got=repr(got), expected=repr(plain)))
             sg, sr = gen_source(g), gen_source(ref)
             if sg is not None and sr is not None and sg != sr:
                 import difflib
@@ -1154,6 +1235,9 @@ def do_request(world, entry, opt, route, verdicts, where):
             if got != exp:
                 verdicts.append(dict(info, what='converted call differs from the same request against fresh caches',
                                      args=[repr(x)[:60] for x in a], got=repr(got), expected=repr(exp)))
+            elif entry.pure and got != as_is():
+                verdicts.append(dict(info, what='served conversion does not behave like the CURRENT definition of the function '
+                                                '(stale code)', args=[repr(x)[:60] for x in a], got=repr(got), expected=repr(as_is())))
     except Exception as e:       # noqa
         verdicts.append(dict(info, what='request raised %s: %s' % (type(e).__name__, str(e)[:200])))
 
